@@ -297,6 +297,62 @@ def u_units_ops(I):
     return {'inputs': {}}
 
 
+INPLACE = [('__iadd__', '__add__'), ('__isub__', '__sub__'), ('__imul__', '__mul__'), ('__itruediv__', '__truediv__'), ('__ipow__', '__pow__')]
+
+
+def u_inplace(I):
+    """a += b, a -= b, a *= b, a /= b, a **= b on quantities: python uses __iadd__ ... when the class (or a base class) defines them. An array
+    quantity is a numpy array, and numpy's in-place operators know nothing about units -- so the quantity classes must define their own,
+    and each must be the unit-aware operator of the same name (whose contract is proved above)"""
+    ctx = I.ctx
+    W_ = I.world
+    cname = ['ArrayQuantity', 'Quantity'][ctx.choose([True, True], 'class')]
+    iop, op = INPLACE[ctx.choose([True] * 5, 'operator')]
+    cls = source.module(QTY).classes[cname]
+    m = W_.find_method(cls, iop)
+    if m is None:
+        if cname == 'Quantity':
+            # no __iadd__ anywhere in the MRO of a scalar quantity: python falls back to __add__ -- fine
+            ctx.oblige('scalar quantity: no in-place operator defined, python falls back to the unit-aware %s' % op, z3.BoolVal(W_.find_method(cls, op) is not None))
+            return {'inputs': {}}
+        ctx.oblige('array quantity: %s is defined by the quantity classes (otherwise numpy\'s unit-blind in-place operator runs)' % iop, z3.BoolVal(False))
+        return {'inputs': {}}
+    calls = []
+    tgt = W_.find_method(cls, op)
+    W_.contracts[(tgt.module.relpath, tgt.qualname)] = lambda I_, a, k: (calls.append(tuple(a)), ('result-of', op))[1]
+    a = Obj(cls, {}, 'param')
+    b = Obj(cls, {}, 'param')
+    out = run_target(I, m.module.relpath, m.qualname, [b], self_obj=a)
+    check_outcome(I, out, raises={}, returns=lambda r: [
+        ('%s is the unit-aware %s of the same operands' % (iop, op), z3.BoolVal(r == ('result-of', op) and len(calls) == 1 and calls[0][0] is a and calls[0][1] is b))])
+    return {'inputs': {}}
+
+
+def replay_inplace(model, state, ob):
+    import numpy as np
+    from pgradd.Units import eval_qty
+    from pgradd.Error import UnitsError
+    from . import real
+    bad = []
+    with real.quiet():
+        for nm, f in (('a += seconds', lambda a, s: a.__iadd__(s)), ('a -= seconds', lambda a, s: a.__isub__(s)), ('a += 1', lambda a, s: a.__iadd__(1))):
+            a = np.array([1.0, 2.0]) * eval_qty('1 m')
+            s_ = np.array([1.0, 2.0]) * eval_qty('1 s')
+            try:
+                f(a, s_)
+                bad.append(nm + ': accepted')
+            except UnitsError:
+                pass
+            except Exception as e:    # noqa
+                bad.append('%s: %s' % (nm, type(e).__name__))
+        a = np.array([1.0, 2.0]) * eval_qty('1 m')
+        a2 = a.__imul__(np.array([1.0, 2.0]) * eval_qty('1 s'))
+        if not (hasattr(a2, '_units') and str(a2._units) in ('m*s', 's*m', 'm s')):
+            bad.append('a *= seconds keeps units %s' % getattr(a2, '_units', None))
+    return {'failed': bool(bad), 'input': "a = np.array([1., 2.]) * eval_qty('1 m'); a += np.array([1., 2.]) * eval_qty('1 s')", 'observed': bad or 'UnitsError', 'expected': 'UnitsError (and *= combines the units)',
+            'script': "import numpy as np\nfrom pgradd.Units import eval_qty\na = np.array([1., 2.]) * eval_qty('1 m')\na += np.array([1., 2.]) * eval_qty('1 s')   # expected UnitsError\nprint(a)\n"}
+
+
 def replay_build(model, state, ob):
     """exponent vectors around the snapping threshold (1e-7) through the real FundamentalUnits._build"""
     import numpy as np
@@ -336,6 +392,7 @@ UNITS += [
     Unit('GenericQuantity.__pow__', (QTY, 'GenericQuantity.__pow__'), pow_unit),
     Unit('FundamentalUnits._build', (QTY, 'FundamentalUnits._build'), build_unit, replay_build),
     Unit('FundamentalUnits.__mul__/__truediv__/__pow__', (QTY, 'FundamentalUnits.__pow__'), u_units_ops),
+    Unit('in-place operators of quantities', (QTY, 'GenericQuantity.__add__'), u_inplace, replay_inplace),
 ]
 
 from . import standins     # noqa: E402
